@@ -1,0 +1,13 @@
+//go:build verif
+
+// Machine-checked contracts for govc (see /verif/DESIGN.md). Comments only;
+// compiled only with the build tag "verif".
+
+package slicex
+
+// Subtract only reads its arguments and returns a new slice (used by the providers' change
+// detection, C18): its result is built by append in a loop that writes only memory allocated by the
+// call itself.
+//@ func Subtract
+//@   props C18
+//@   modifies nothing
